@@ -169,3 +169,104 @@ func (li *LockInfo) Reached(ins ssa.Instruction) bool {
 	_, ok := li.held[ins]
 	return ok
 }
+
+// EntryLocks computes, for the unexported functions among funcs that are only ever called directly,
+// the locks that are held at every one of their call sites (translated to the callee's parameter
+// names): the "caller holds the lock" convention of helpers. Least fixed point from "nothing held",
+// so every claimed lock is justified by claims established earlier.
+func EntryLocks(funcs []*ssa.Function) map[*ssa.Function]map[string]bool {
+	inSet := map[*ssa.Function]bool{}
+	for _, f := range funcs {
+		inSet[f] = true
+	}
+	// functions used as values (closures bound, stored, passed) or started with go/defer cannot
+	// rely on their callers
+	usedAsValue := map[*ssa.Function]bool{}
+	type site struct {
+		caller *ssa.Function
+		call   ssa.CallInstruction
+	}
+	sites := map[*ssa.Function][]site{}
+	for _, g := range funcs {
+		AllInstrs(g, func(in ssa.Instruction) {
+			var ops [16]*ssa.Value
+			for _, op := range in.Operands(ops[:0]) {
+				if op == nil || *op == nil {
+					continue
+				}
+				if fn, ok := (*op).(*ssa.Function); ok {
+					if c, isCall := in.(ssa.CallInstruction); isCall && c.Common().Value == ssa.Value(fn) {
+						if _, isGo := in.(*ssa.Go); isGo {
+							usedAsValue[fn] = true
+						} else if _, isDefer := in.(*ssa.Defer); isDefer {
+							usedAsValue[fn] = true
+						} else {
+							sites[fn] = append(sites[fn], site{g, c})
+						}
+						continue
+					}
+					usedAsValue[fn] = true
+				}
+			}
+		})
+	}
+	eligible := func(f *ssa.Function) bool {
+		if !inSet[f] || f.Parent() != nil || usedAsValue[f] || len(sites[f]) == 0 {
+			return false
+		}
+		obj := f.Object()
+		return obj != nil && !obj.Exported()
+	}
+	entry := map[*ssa.Function]map[string]bool{}
+	for round := 0; round < 6; round++ {
+		changed := false
+		infos := map[*ssa.Function]*LockInfo{}
+		for _, f := range funcs {
+			if !eligible(f) {
+				continue
+			}
+			var acc map[string]bool
+			for _, s := range sites[f] {
+				li := infos[s.caller]
+				if li == nil {
+					li = Lockset(s.caller, entry[s.caller])
+					infos[s.caller] = li
+				}
+				held := li.held[s.call]
+				tr := map[string]bool{}
+				args := s.call.Common().Args
+				for i, prm := range f.Params {
+					if i >= len(args) {
+						break
+					}
+					ka := li.Key(args[i])
+					for h := range held {
+						if strings.HasPrefix(h, ka+".") {
+							tr[prm.Name()+h[len(ka):]] = true
+						}
+					}
+				}
+				if acc == nil {
+					acc = tr
+				} else {
+					acc = meet(acc, tr)
+				}
+			}
+			if !sameSet(acc, entry[f]) {
+				// only ever grows (least fixed point)
+				grown := copySet(entry[f])
+				for k := range acc {
+					if !grown[k] {
+						grown[k] = true
+						changed = true
+					}
+				}
+				entry[f] = grown
+			}
+		}
+		if !changed {
+			break
+		}
+	}
+	return entry
+}
